@@ -3,6 +3,9 @@
 import json, os, subprocess
 V = os.path.dirname(os.path.dirname(os.path.abspath(__file__)))
 TEXT = {
+ 'C04': ('specification/equilibrium monitor: T, P, H, S, vapour fraction and phase rows read after each real vle(...) call and judged against the specification, harness-computed fugacities, the public bubble/dew solvers, an independent TP re-flash, a Raoult Rachford-Rice model (ideal package) and the flash of the scaled feed',
+         'Exploration: seeded compositions of 1-5 volatile chemicals (family-restricted where the property says so) with and without inerts; per composition TP, PV, TV, PH, PS, TH, TS flashes plus re-flash, ideal-package comparison and scaled feed; single-component saturation-line clauses.',
+         'Bounds derive from the solver tolerances (T_tol, P_tol times the slope across the two-phase window, K_tol); entropy 5e-3 of S_vap - S_liq.'),
  'C15': ('equilibrium-residual and history monitor: liquid / solid rows of the real stream recorded after each lle / sle call; activities recomputed from thermo.Gamma; results after call histories (use_cache on/off, temperature up and down) compared with a fresh solver on a fresh stream',
          'Exploration: seeded LLE mixtures of 2-5 chemicals with a partially miscible pair, three methods, scale factors, every top chemical, histories of 1-4 earlier calls; SLE with three solutes in 0-3 solvents, given and computed solubility.',
          'Per-method resolution bounds (fixed-point 1e-7, shgo 1e-5 / 5e-3 on activities, differential evolution 2e-2); l/L labels compared up to a swap when no top chemical is named.'),
